@@ -372,6 +372,9 @@ class Interp:
     def make_exception(self, st: St, pycls, args, kwargs=None):
         """Instantiate an exception class symbolically: fresh term, class fact, field observers."""
         t = self.ctx.fresh_val("exc_" + pycls.__name__)
+        for prev in st.assumed:          # a newly allocated object
+            st.assume(t != prev)
+        st.assumed.append(t)
         st.assume(T.F_cls(t) == self.reg.cls(pycls))
         v = V("sym", t=t, ty=pycls)
         names = None
@@ -976,9 +979,9 @@ class Interp:
                 else:
                     argnodes.append(a)
                     star.append(False)
-            kwnames = [k.arg for k in node.keywords]
-            if any(k is None for k in kwnames):
-                raise Unsupported("**kwargs in call")
+            kwnames = [k.arg if k.arg is not None else "**" for k in node.keywords]
+            if kwnames.count("**") > 1:
+                raise Unsupported("several **kwargs in call")
             for s2, r2 in self.eval_list(argnodes + [k.value for k in node.keywords], s1):
                 if r2[0] != "ok":
                     yield s2, r2
